@@ -46,6 +46,12 @@ func (eval Evaluator) EvaluateMany(ctIn *rlwe.Ciphertext, linearTransformations 
 
 	for i, lt := range linearTransformations {
 
+		// The giant steps of the BSGS algorithm go through the non-hoisted gadget product, which uses
+		// BuffDecompQP[0] as scratch space: the decomposition of ctIn has to be recomputed after it.
+		if i > 0 && linearTransformations[i-1].N1 != 0 {
+			eval.DecomposeNTT(levelQ, levelP, levelP+1, ctIn.Value[1], ctIn.IsNTT, BuffDecompQP)
+		}
+
 		if lt.N1 == 0 {
 			if err = eval.MultiplyByDiagMatrix(ctIn, lt, BuffDecompQP, opOut[i]); err != nil {
 				return
